@@ -81,7 +81,7 @@ PROPS["C03"] = {
 }
 
 PROPS["C07"] = {
-    "lean": ["WsVerif.Props.C07", "WsVerif.Props.C07Stream", "WsVerif.Props.C07Install", "WsVerif.Props.C07End", "WsVerif.Props.C07ReadMessage", "WsVerif.Props.C04DiscardText", "WsVerif.Bridge.C07", "WsVerif.Bridge.C04"],
+    "lean": ["WsVerif.Props.C07", "WsVerif.Props.C07Stream", "WsVerif.Props.C07Install", "WsVerif.Props.C07End", "WsVerif.Props.C07ReadMessage", "WsVerif.Props.C07ReadMessageFrag", "WsVerif.Props.C04DiscardText", "WsVerif.Bridge.C07", "WsVerif.Bridge.C04"],
     "rule": "Reader wiring: 16 (quick) / 316 (thorough) text payloads (valid, truncated, overlong, surrogate, > U+10FFFF) under EVERY split into "
             "three fragments, with and without ping/pong (non-UTF-8 payloads) between the fragments, followed on the same reader by a binary "
             "message holding invalid UTF-8 and another text message; chunkings {whole,1,2,5}; through ReadMessage, ReadData, Reader+ReadAll "
@@ -103,8 +103,10 @@ PROPS["C07"] = {
                   "leaving the table, or at the end of a message that stops inside a character), never io.EOF - proved by simulating the checking reader with the "
                   "non-checking one (Proofs/ReaderText: read_sim, reads_sim) over C04.message_delivered. ReadMessage on an unfragmented text message (Props/C07ReadMessage.readMessage_single_text): [(text, payload)] with no error iff the payload is "
                   "well-formed, ErrInvalidUTF8 otherwise, any chunking - io.ReadFull never drops the verdict because the checking reader reports fewer bytes than "
-                  "asked for whenever it reports ErrInvalidUTF8 (count bound in SimOut). PARTIAL: ReadMessage on fragmented text / ReadData (OnIntermediate set) "
-                  "are covered by correspondence and the oracle, not by a stream theorem (Discard: C04.message_skipped_any). "
+                  "asked for whenever it reports ErrInvalidUTF8 (count bound in SimOut). The same on a FRAGMENTED text message (Props/C07ReadMessageFrag.readMessage_fragmented_text): for any fragmentation, interleaved control frames "
+                  "and chunking, ReadMessage returns the controls and then the text iff the concatenated payload is well-formed, ErrInvalidUTF8 otherwise - the text "
+                  "simulation redone with the collecting handler installed (Proofs/ReaderBin: read_sim_collect, pull_sim). PARTIAL: the ReadData family (handlers that write "
+                  "replies) is covered by correspondence and the oracle, not by a stream theorem (Discard: C04.message_skipped_any). "
                   "The unchanged tree violated the property (F20: a text message cut inside a character returned as complete by ReadMessage when the source "
                   "failed along with the last bytes) - found by the oracle once the Fd transport kind entered the single-frame text family, repaired by fix "
                   "commit 6a7a1a5; C07End.end_of_invalid_text_is_reported states the repaired behaviour for every Read.",
@@ -153,7 +155,7 @@ PROPS["C04"] = {
     "trusted_base": READER_TB,
     "assumptions": COMMON_ASSUME + ["caller buffers are non-empty", "callbacks read only from the reader they are given",
                                     "no earlier error on the same reader (DESIGN §7 N2)"],
-    "level_text": 'Kernel-checked: message_delivered - for every data message (any number of fragments, empty ones included, control frames interleaved anywhere, masked or not), every chunking of the transport (empty chunks, data together with io.EOF) and every sequence of positive caller buffer sizes, what Reader.Read hands out is a prefix of the concatenation of the unmasked fragment payloads; no error but the final io.EOF is possible; io.EOF is reached within (bytes + chunks + 1) Reads; then the whole message has been delivered, the transport stands exactly behind its last frame and the reader is reset like a new one. Built on C01 (chunk-independent header decoding), C02 (cipher = XOR at any offset) and a one-Read step invariant (Proofs/Reader.lean). With an OnIntermediate handler (Props/C04Cb.message_delivered_collect, the handler wsutil.ReadMessage installs): the same delivery, and when io.EOF is reached the handler has been called exactly once per interleaved control frame, in stream order, with that frame\'s opcode and exact unmasked payload (step_cb / reads_cb in Proofs/ReaderCb thread the handler\'s log through the stream invariant). With CheckUTF8 on: C07.text_message. PARTIAL in scope: reader without receive extension, transport not delivering its last bytes together with a failure; Discard: message_skipped / message_skipped_any - NextFrame then Discard from anywhere inside a message consumes exactly the rest of it (fragments and interleaved controls) for any chunking, CheckUTF8 on or off, no error, transport at the next message. The helper loops themselves: readAll_message (ioutil.ReadAll over the reader, with and without the collecting handler), readMessage_single / readMessage_fragmented (wsutil.ReadMessage on unfragmented and on fragmented non-text messages, CheckUTF8 on as in the helper: controls first, then the one message; text: C07.readMessage_single_text). ReadMessage on fragmented text and the ReadData family (the replies written by ControlFrameHandler) are decided by the stream oracle + exact correspondence (~5k quick / ~100k thorough cases).',
+    "level_text": 'Kernel-checked: message_delivered - for every data message (any number of fragments, empty ones included, control frames interleaved anywhere, masked or not), every chunking of the transport (empty chunks, data together with io.EOF) and every sequence of positive caller buffer sizes, what Reader.Read hands out is a prefix of the concatenation of the unmasked fragment payloads; no error but the final io.EOF is possible; io.EOF is reached within (bytes + chunks + 1) Reads; then the whole message has been delivered, the transport stands exactly behind its last frame and the reader is reset like a new one. Built on C01 (chunk-independent header decoding), C02 (cipher = XOR at any offset) and a one-Read step invariant (Proofs/Reader.lean). With an OnIntermediate handler (Props/C04Cb.message_delivered_collect, the handler wsutil.ReadMessage installs): the same delivery, and when io.EOF is reached the handler has been called exactly once per interleaved control frame, in stream order, with that frame\'s opcode and exact unmasked payload (step_cb / reads_cb in Proofs/ReaderCb thread the handler\'s log through the stream invariant). With CheckUTF8 on: C07.text_message. PARTIAL in scope: reader without receive extension, transport not delivering its last bytes together with a failure; Discard: message_skipped / message_skipped_any - NextFrame then Discard from anywhere inside a message consumes exactly the rest of it (fragments and interleaved controls) for any chunking, CheckUTF8 on or off, no error, transport at the next message. The helper loops themselves: readAll_message (ioutil.ReadAll over the reader, with and without the collecting handler), readMessage_single / readMessage_fragmented (wsutil.ReadMessage on unfragmented and on fragmented non-text messages, CheckUTF8 on as in the helper: controls first, then the one message; text: C07.readMessage_single_text). fragmented text: C07.readMessage_fragmented_text). The ReadData family (the replies written by ControlFrameHandler) is decided by the stream oracle + exact correspondence (~5k quick / ~100k thorough cases).',
     "level_note": 'Trusted: Lean kernel, Spec/Stream.lean (oracle), Model/Reader.lean as a hand model tied by correspondence, harness.',
 }
 
